@@ -9,6 +9,7 @@ mod cmodel;
 mod oracle;
 mod c07;
 mod c08;
+mod c09;
 mod c10;
 mod tok;
 mod c11;
@@ -183,6 +184,7 @@ fn main() {
         "C06" => c06::run(&ctx),
         "C07" => c07::run(&ctx),
         "C08" => c08::run(&ctx),
+        "C09" => c09::run(&ctx),
         "C10" => c10::run(&ctx),
         "C11" => c11::run(&ctx),
         "C12" => c12::run(&ctx),
